@@ -2,6 +2,7 @@ package main
 
 import (
 	"bytes"
+	"encoding/json"
 	"os"
 	"path/filepath"
 	"sort"
@@ -52,6 +53,8 @@ type corpus struct {
 	all, small, large []corpusFile
 	eof               []corpusFile            // e_*: one tiny end-of-input truncation per lexer state, drawn rarely
 	deep              []corpusFile            // x_deep_*: deeply nested / very long chains
+	vsplit            []vsplitItem            // files whose parse depends on the version (corpus/vsplit.json)
+	vsplitInner       []vsplitItem            // ... with a boundary between two 7.x versions
 	themes            map[string][]corpusFile // feature class -> files (swarm: a run may draw from one class only)
 	themeNames        []string
 }
@@ -62,6 +65,46 @@ type corpus struct {
 var themeMarks = []struct{ name, mark string }{
 	{"heredoc", "<<<"}, {"namespace", "namespace"}, {"use", "use "}, {"html", "?>"}, {"class", "class "},
 	{"trait", "trait"}, {"function", "function"}, {"string", "\"$"}, {"comment", "/*"}, {"static", "static"}, {"array", "["},
+}
+
+type vsplitItem struct {
+	file    corpusFile
+	classes [][]string
+}
+
+func (c *corpus) loadVsplit(dir string) {
+	raw, err := os.ReadFile(filepath.Join(dir, "vsplit.json"))
+	if err != nil {
+		return
+	}
+	var list []struct {
+		File    string     `json:"file"`
+		Classes [][]string `json:"classes"`
+	}
+	if json.Unmarshal(raw, &list) != nil {
+		return
+	}
+	byName := map[string]corpusFile{}
+	for _, f := range c.all {
+		byName[f.name] = f
+	}
+	for _, e := range list {
+		f, ok := byName[e.File]
+		if !ok || len(e.Classes) < 2 {
+			continue
+		}
+		it := vsplitItem{file: f, classes: e.Classes}
+		c.vsplit = append(c.vsplit, it)
+		sevens := 0
+		for _, cl := range e.Classes {
+			if strings.HasPrefix(cl[0], "7") {
+				sevens++
+			}
+		}
+		if sevens >= 2 {
+			c.vsplitInner = append(c.vsplitInner, it)
+		}
+	}
 }
 
 func loadCorpus(dir string) (*corpus, error) {
@@ -112,6 +155,7 @@ func loadCorpus(dir string) (*corpus, error) {
 	if len(c.small) == 0 || len(c.large) == 0 {
 		return nil, os.ErrNotExist
 	}
+	c.loadVsplit(dir)
 	return c, nil
 }
 
@@ -386,7 +430,19 @@ func genC11(c *corpus, seed uint64) *scn.Scenario {
 	// malformed inputs under one grammar, so that one process meets many
 	// different error states and recovery paths (state kept per error site).
 	family, crowd, storm := false, false, false
+	var split *vsplitItem
 	switch x := r.n(100); {
+	case x >= 88 && x < 96 && len(c.vsplit) > 0:
+		// version split: the same bytes parsed concurrently under versions the
+		// tree treats differently (what state keyed too loosely by version, or
+		// not at all, gets wrong)
+		if len(c.vsplitInner) > 0 && r.chance(60) {
+			split = &c.vsplitInner[r.n(len(c.vsplitInner))]
+		} else {
+			split = &c.vsplit[r.n(len(c.vsplit))]
+		}
+		ni = 2 + r.n(3)
+		s.Theme = "version-split"
 	case x >= 96 && len(c.deep) > 0 && s.Kind == "A":
 		// storm: many operations cut short by faults deep inside deeply nested
 		// trees, in one process (what an error path forgets to give back -
@@ -413,6 +469,15 @@ func genC11(c *corpus, seed uint64) *scn.Scenario {
 	}
 	crowdVers := [][]string{{"5.0", "5.3", "5.6"}, {"7.0", "7.1", "7.2", "7.3", "7.4", ""}}[r.n(2)]
 	for i := 0; i < ni; i++ {
+		if split != nil {
+			cl := split.classes[i%len(split.classes)]
+			in := scn.Input{Name: split.file.name, Src: append([]byte(nil), split.file.src...), Version: cl[r.n(len(cl))], Callback: r.chance(85)}
+			if i >= len(split.classes) && r.chance(30) {
+				in = nearDup(r, in)
+			}
+			s.Inputs = append(s.Inputs, in)
+			continue
+		}
 		if storm && i < 2 {
 			f := c.deep[r.n(len(c.deep))]
 			in := scn.Input{Name: f.name, Src: append([]byte(nil), f.src...), Version: versions[r.n(len(versions))], Callback: true}
